@@ -217,7 +217,7 @@ def culprit(ast, rctx, exp_fn, obs_fn, ref, ctx_ok=lambda n: True, depth=0):
         got = obs_fn(sub, rctx)
         if got == exp:
             continue
-        kind = _tag(got) if isinstance(got, tuple) else _tag(exp) + '-expected' if isinstance(exp, tuple) else diff_kind(exp, got)
+        kind = _kind(exp, got)
         if what == 'filter':
             inner = _pred_culprit(sub[2], exp_fn(['fpath', sub[1], [], []], rctx)[1], exp_fn, obs_fn, ref, ctx_ok, depth)
             if inner is not None:
@@ -250,7 +250,7 @@ def culprit(ast, rctx, exp_fn, obs_fn, ref, ctx_ok=lambda n: True, depth=0):
             e1, g1 = exp_fn(single, n)[0], obs_fn(single, n)
             if e1 != g1:
                 bad_kinds.add(n.kind)
-                bad_diffs.add(_tag(g1) if isinstance(g1, tuple) else _tag(e1) + '-expected' if isinstance(e1, tuple) else diff_kind(e1, g1))
+                bad_diffs.add(_kind(e1, g1))
                 if st_[3] and exp_fn(bare, n)[0] != obs_fn(bare, n):
                     pred_only = False
         psuffix = '/' + _pred_kinds(st_[3]) if st_[3] else ''
@@ -421,8 +421,25 @@ def judge_ref(case, rec: Recorder | None = None) -> list[Disc]:
     return discs
 
 
+def _kind(exp, got):
+    """failure kind of two comparables: address lists, ('ns', [(prefix, uri)...]) multisets, ('error'|'escape', ...)"""
+    e_ns, g_ns = isinstance(exp, tuple) and exp[0] == 'ns', isinstance(got, tuple) and got[0] == 'ns'
+    if e_ns and g_ns:
+        return 'ns-' + diff_kind(exp[1], got[1])
+    if e_ns or g_ns:
+        other = got if e_ns else exp
+        return 'ns-vs-' + ('nodes' if not isinstance(other, tuple) else _tag(other))
+    if isinstance(got, tuple):
+        return _tag(got)
+    if isinstance(exp, tuple):
+        return _tag(exp) + '-expected'
+    return diff_kind(exp, got)
+
+
 def _tag(g):
-    return 'nodes' if not isinstance(g, tuple) else f'{g[0]}:{str(g[1]).rsplit("/", 1)[-1]}'
+    if not isinstance(g, tuple):
+        return 'nodes'
+    return 'ns' if g[0] == 'ns' else f'{g[0]}:{str(g[1]).rsplit("/", 1)[-1]}'
 
 
 def _parse_fails(version, text):
